@@ -49,7 +49,15 @@ func gen(t *rapid.T) Script {
 	n := rapid.IntRange(2, 14).Draw(t, "nops")
 	streams := 0
 	for i := 0; i < n; i++ {
-		switch k := rapid.SampledFrom([]string{"settings", "priority", "window_update", "burst", "burst", "burst", "wait"}).Draw(t, "kind"); k {
+		switch k := rapid.SampledFrom([]string{"settings", "priority", "window_update", "burst", "burst", "burst", "wait", "rejected"}).Draw(t, "kind"); k {
+		case "rejected":
+			// a HEADERS frame the server answers with a stream error (no :path): it is a frame the client sent all the
+			// same, with its own pseudo-header order and, drawn, priority fields; it may be followed by further frames
+			streams++
+			s.Ops = append(s.Ops, Op{Kind: "rejected", Prio: rapid.Bool().Draw(t, "rprio"), N: rapid.IntRange(0, 5).Draw(t, "rorder")})
+			for k := rapid.IntRange(0, 2).Draw(t, "after-rejected"); k > 0; k-- {
+				s.Ops = append(s.Ops, Op{Kind: rapid.SampledFrom([]string{"settings", "priority", "window_update"}).Draw(t, "arjkind")})
+			}
 		case "burst":
 			b := rapid.IntRange(1, 30).Draw(t, "n")
 			if streams+b > 120 {
@@ -117,7 +125,7 @@ func exec(t *testing.T, s Script) *vstat.Violation {
 	var reqs []*rig.Recorded
 	var failure string
 	inFlightWhileWriting := false
-	resetBursts := false
+	resetBursts, rejectedInFlight := false, false
 	spin := &spinInjector{seen: map[string]bool{}, n: 30}
 	msg := rig.Bubble(t, func() {
 		p := rig.StartProxy(rig.ProxyOpts{IdleTimeout: 10 * time.Minute, TLSHandshakeTimeout: 10 * time.Second,
@@ -207,6 +215,29 @@ func exec(t *testing.T, s Script) *vstat.Violation {
 					}
 					outstanding = append(outstanding, sid)
 				}
+			case "rejected":
+				sid := next
+				next += 2
+				order := [][]string{{":method", ":scheme", ":authority"}, {":authority", ":method", ":scheme"}, {":scheme", ":authority", ":method"}, {":scheme", ":method", ":authority"}, {":authority", ":scheme", ":method"}, {":method", ":authority", ":scheme"}}[op.N%6]
+				f := h2fp.Frame{Kind: "headers", Stream: sid, Names: order}
+				var pr *rig.Prio
+				if op.Prio {
+					pr = &rig.Prio{Dep: 0, Weight: uint8(sid % 200)}
+					f.HasPrio, f.Weight = true, uint8(sid%200)
+				}
+				sent = append(sent, f)
+				vals := map[string]string{":method": "GET", ":scheme": "https", ":authority": "example.com"}
+				var fields [][2]string
+				for _, n := range order {
+					fields = append(fields, [2]string{n, vals[n]})
+				}
+				if err := peer.WriteRequestHeaders(sid, fields, true, pr, nil); err != nil {
+					failure = "write: " + err.Error()
+					return
+				}
+				if len(outstanding) > 0 {
+					rejectedInFlight = true
+				}
 			case "wait":
 				settle()
 			}
@@ -267,12 +298,15 @@ func exec(t *testing.T, s Script) *vstat.Violation {
 	if resetBursts {
 		cl = append(cl, "streams-cancelled-by-the-client-while-their-handlers-run")
 	}
+	if rejectedInFlight {
+		cl = append(cl, "headers-frame-rejected-with-a-stream-error-while-requests-are-in-flight")
+	}
 	col.Case(fmt.Sprintf("%+v", s), inFlightWhileWriting && len(reqs) >= 2, map[string]any{"ops": s.Ops, "requests": len(reqs), "frames_sent": len(sent)}, cl...)
 	return nil
 }
 
 func TestStreams(t *testing.T) {
 	rig.Certs()
-	col.Mandatory("streams-in-flight-while-fingerprint-frames-arrive", "several-streams", "streams-cancelled-by-the-client-while-their-handlers-run")
+	col.Mandatory("streams-in-flight-while-fingerprint-frames-arrive", "several-streams", "streams-cancelled-by-the-client-while-their-handlers-run", "headers-frame-rejected-with-a-stream-error-while-requests-are-in-flight")
 	vstat.Run(t, vstat.Spec[Script]{Col: col, Quick: 150, Thorough: 4000, Gen: gen, ScheduleDependent: true, Exec: func(s Script) *vstat.Violation { return exec(t, s) }})
 }
